@@ -339,6 +339,16 @@ impl InterfaceInner {
 
                 let payload_length = packet.header.payload_len;
 
+                // The datagram size field of the fragment headers has 11 bits (RFC 4944 § 5.3).
+                if payload_length + 40 > 2047 {
+                    net_debug!(
+                        "dispatch_ieee802154: dropping, a datagram of {} octets \
+                        cannot be carried in 6LoWPAN fragments",
+                        payload_length + 40
+                    );
+                    return;
+                }
+
                 Self::ipv6_to_sixlowpan(
                     &self.checksum_caps(),
                     packet,
